@@ -406,13 +406,16 @@ func Run(rep *report.Report, tier string) {
 	rep.Set("other_payloads", len(others))
 	// (b)+(c) scoping over the RIB catalogue
 	cat := flushenum.CatalogueSize()
-	cidx := make([]int, cat)
+	cidx := make([]int, 2*cat) // every RIB of the catalogue, and again with the second network instance created late
 	for i := range cidx {
 		cidx[i] = i
 	}
 	nreq := 0
 	par(cidx, func(ci int) {
-		s, name, err := flushenum.BuildCatalogue(ci)
+		s, name, err := flushenum.BuildCatalogue(ci % cat)
+		if ci >= cat {
+			s, name, err = flushenum.BuildCatalogueLate(ci % cat)
+		}
 		if err != nil {
 			record("engine", []fail{{"engine/catalogue", err.Error()}}, nil)
 			return
